@@ -177,16 +177,22 @@ type determBlock struct {
 }
 
 type determCase struct {
-	ID          string        `json:"id"`
-	Ver         int32         `json:"ver"`
-	NAccts      int           `json:"naccts"`
-	Bal         string        `json:"bal"`
-	Public      bool          `json:"public"`
-	GenesisTs   int64         `json:"genesis_ts"`
-	Coinbase    *int          `json:"coinbase"`
-	PlainStub   bool          `json:"plain_stub"`
-	GhostBefore uint64        `json:"ghost_before"`
-	Blocks      []determBlock `json:"blocks"`
+	ID          string `json:"id"`
+	Ver         int32  `json:"ver"`
+	NAccts      int    `json:"naccts"`
+	Bal         string `json:"bal"`
+	Public      bool   `json:"public"`
+	GenesisTs   int64  `json:"genesis_ts"`
+	Coinbase    *int   `json:"coinbase"`
+	PlainStub   bool   `json:"plain_stub"`
+	GhostBefore uint64 `json:"ghost_before"`
+	// validate mode: before block k (1-based) is fed, the node first receives a REFUSED sibling of it
+	// (same transactions; "root" = wrong state root in the header, "tx" = one more transaction that
+	// fails) through the real addBlock; "root+restart" additionally re-initialises the process-wide
+	// governance state from the best block's state afterwards (node restart)
+	RefuseBefore uint64        `json:"refuse_before"`
+	RefuseKind   string        `json:"refuse_kind"`
+	Blocks       []determBlock `json:"blocks"`
 }
 
 type determValidateIn struct {
@@ -254,6 +260,8 @@ type determGhost struct {
 
 type determBlockOut struct {
 	No uint64 `json:"no"`
+	// validate, refuse_before: error with which the refused sibling was rejected
+	Refused string `json:"refused,omitempty"`
 	// produce
 	BlockHash       string       `json:"block_hash"`
 	BlockHex        string       `json:"block_hex,omitempty"`
@@ -361,15 +369,28 @@ func determBig(s string) *big.Int {
 
 // determConsensus: StubConsensus plus the effect dpos.Status.Update has on the process-wide
 // governance state (consensus/impl/dpos/status.go:72-121).
+// VerifDetermNewStatus is installed by zz_verif_determ_gather_test.go (package chain_test, which may
+// import consensus/impl/dpos): it builds the REAL dpos.Status (bp.NewCluster + dpos.NewStatus on the
+// node's chain DB and state DB) and returns its Update method.
+var VerifDetermNewStatus func(cs *ChainService) func(block *types.Block)
+
 type determConsensus struct {
 	StubConsensus
 	cs     *ChainService
 	bestID string
+	real   func(block *types.Block) // the real dpos.Status.Update, when available
 }
 
 func (c *determConsensus) GetType() consensus.ConsensusType { return consensus.ConsensusDPOS }
 
 func (c *determConsensus) Update(block *types.Block) {
+	if c.real != nil {
+		// consensus/impl/dpos/status.go Status.Update: LIB bookkeeping, BP snapshots, CommitParams,
+		// and — in its rollback branch — the reload of the voting power rank
+		c.real(block)
+		c.bestID = block.ID()
+		return
+	}
 	if c.bestID == block.PrevID() {
 		// status.go:89
 		system.CommitParams(true)
@@ -465,7 +486,11 @@ func newDetermNode(c *determCase) *determNode {
 		cs.SetChainConsensus(&StubConsensus{})
 	} else {
 		gb, _ := cs.getBlockByNo(0)
-		cs.SetChainConsensus(&determConsensus{cs: cs, bestID: gb.ID()})
+		dc := &determConsensus{cs: cs, bestID: gb.ID()}
+		if VerifDetermNewStatus != nil && os.Getenv("VERIF_STATUS") != "mirror" {
+			dc.real = VerifDetermNewStatus(cs)
+		}
+		cs.SetChainConsensus(dc)
 	}
 	n.cs = cs
 	n.genesis, _ = cs.getBlockByNo(0)
@@ -1104,6 +1129,45 @@ func determValidateOnce(c *determCase, blocks []*types.Block) (*determOut, []det
 				g.Err = err.Error()
 			}
 			o.Ghost = g
+		}
+		if c.RefuseBefore != 0 && blk.BlockNo() == c.RefuseBefore {
+			// a sibling of this block that the node executes and then refuses (chainhandle.go
+			// executeBlock: `if err := ex.execute(); err != nil { cs.Update(bestBlock); return err }`)
+			x := proto.Clone(src).(*types.Block)
+			switch {
+			case strings.HasPrefix(c.RefuseKind, "tx") && len(x.Body.Txs) > 0:
+				// the last transaction once more: its nonce is now too low, the executor fails
+				x.Body.Txs = append(x.Body.Txs, proto.Clone(x.Body.Txs[len(x.Body.Txs)-1]).(*types.Tx))
+				x.Header.TxsRootHash = types.CalculateTxsRootHash(x.Body.Txs)
+			default:
+				bad := append([]byte{}, x.Header.BlocksRootHash...)
+				bad[0] ^= 0xff
+				x.Header.BlocksRootHash = bad
+			}
+			x.Header.Timestamp++ // a different block
+			x.Hash = nil
+			x.BlockHash()
+			func() {
+				defer func() {
+					if r := recover(); r != nil {
+						o.Refused = "panic: " + fmt.Sprint(r)
+					}
+				}()
+				if err := n.cs.addBlock(x, nil, testPeer); err != nil {
+					o.Refused = err.Error()
+				} else {
+					o.Refused = "ACCEPTED"
+				}
+			}()
+			if strings.HasSuffix(c.RefuseKind, "restart") {
+				if best, err := n.cs.GetBestBlock(); err == nil {
+					sdb := n.cs.sdb.OpenNewStateDB(best.GetHeader().GetBlocksRootHash())
+					if scs, err := statedb.GetSystemAccountState(sdb); err == nil {
+						system.InitSystemParams(scs, system.RESET)
+						_ = system.InitVotingPowerRank(scs)
+					}
+				}
+			}
 		}
 		blk.Hash = nil
 		o.BlockHash = hx(blk.BlockHash())
